@@ -121,6 +121,8 @@ def session(bindir, rng, tag, tier):
         for e in hook:
             if e.get("ev") == "action":
                 out.append({"ev": "action", "added": e["added"], "keys": e["keys"]})
+            elif e.get("ev") == "coverage":
+                out.append(e)
             elif e.get("ev") == "draw" and e["frame"] in judged and e["frame"] in snaps:
                 d = e
                 ev = {"ev": "screen", "frame": d["frame"], "tab": d["tab"], "sel": d["sel"], "w": d["w"], "h": d["h"], "scale9": d["scale9"],
@@ -163,6 +165,8 @@ def run(prop, tier, seed, rep):
                           boundary=lambda e: e["ev"] == "session_start", name="C18-selftest")
     scr = [e for e in events if e["ev"] == "screen"]
     rep.extra.update({"sessions": n, "screens_judged": len(scr),
+                      "coverage_folds_checked": sum(1 for e in events if e["ev"] == "coverage"),
+                      "coverage_fold_drift": sum(1 for d in core.LAST_INFOS if d["what"] == "coverage"),
                       "table_screens_with_cells": sum(1 for e in scr if e["cells_valid"] == 1),
                       "table_rows_judged": sum(len(e["cells"]) for e in scr if e["cells_valid"] == 1),
                       "stats_screens": sum(1 for e in scr if e["stats_valid"] == 1),
